@@ -7,7 +7,8 @@ AREA = "c14"
 LEAN_PROPS = "Litep2pVerif.Props.C14"
 THEOREMS = ["bucket_placement", "local_never_stored", "bucket_bound", "capacity_is_twenty", "index_in_range",
             "connected_not_evicted", "junk_invisible", "iter_order", "iter_visits", "bucket_order",
-            "closest_correct", "closest_dup_witness"]
+            "closest_correct", "closest_dup_witness", "coordinator_table_is_table_run",
+            "connected_peer_stays_connected_in_table", "connected_peer_kept_by_event", "add_known_peer_downgrades_witness"]
 CONSTS = ["KBUCKET_CAPACITY", "NUM_BUCKETS"]
 MANIFEST = {
     "text": "Lean 4 theorems about an executable model of RoutingTable/KBucket/ClosestBucketsIter: by induction over all "
@@ -18,7 +19,14 @@ MANIFEST = {
             "strictly closer peers (bucket_order, bitwise argument over all 256-bit patterns), hence closest(t,k) is exactly "
             "the k closest stored peers with addresses, strictly sorted (closest_correct, for the repaired code; "
             "closest_dup_witness shows the duplicate of the unrepaired code). Plus a seeded correspondence run of the real "
-            "RoutingTable (keys dictated through a cfg-guarded override) against the model and a brute-force oracle.",
+            "RoutingTable (keys dictated through a cfg-guarded override) against the model and a brute-force oracle. "
+            "Coordinator level (Model/Kad/TableWiring.lean: the table calls of Kademlia's AddKnownPeer / "
+            "ConnectionEstablished / ConnectionClosed / DialFailure / inbound-substream handlers as a function of the event "
+            "history): coordinator_table_is_table_run, connected_peer_stays_connected_in_table (a Connected entry keeps slot, "
+            "identity and flag under every further event except the close of its own connection and an add_known_peer for "
+            "it), connected_peer_kept_by_event (exact one-event condition), add_known_peer_downgrades_witness (known "
+            "finding) - tied by histories on the real Kademlia event loop with dictated keys (c16 area, `t` box) and judged "
+            "by an observation-only oracle: a peer whose connection is open is Connected in the table and keeps its slot.",
     "note": "Trusted: Lean kernel; axioms propext/Classical.choice/Quot.sound; the hand-written model and its tie (sampled "
             "differential runs through adapter src/verif/c14.rs); SHA-256 replaced by dictated keys; AddressStore abstracted "
             "to empty/non-empty; random placeholder ids assumed not to collide with looked-up keys.",
@@ -35,17 +43,26 @@ RULE = ("seeded operation histories (local key; add/connected/dialfail/disconnec
         "unknown peers; closest for targets at every kind of distance (0, 1, odd, even, single bit, stored key) and "
         "k in {0,1,19,20,21,60}, each preceded by a dump) run on the real RoutingTable and on the Lean model; a case is "
         "non-trivial if some bucket reached capacity or a closest call returned at least two peers; distinct = distinct "
-        "(ops, observations) transcripts by SHA-256")
+        "(ops, observations) transcripts by SHA-256; plus (extra_cases, c16 area) coordinator-level histories on the real "
+        "Kademlia event loop: victim in the table, connected in/outbound with or without PeerContext, DialFailure for it "
+        "before / right after / after its bucket is filled with 19-22 connected peers, 1-3 newcomers of the same bucket, "
+        "optional close; random event histories over 8-27 peers; malformed stream")
 TRUSTED_BASE = ["Lean 4.33 kernel", "axioms: propext, Classical.choice, Quot.sound only",
                 "hand-written model Model/Kad/{Key,Bucket,Table}.lean tied to bucket.rs/routing_table.rs/types.rs by this "
                 "correspondence run",
                 "adapter /repo/src/verif/c14.rs, key override hook in types.rs, harness, verif.py, checks/c14.py",
                 "SHA-256 is not modelled: keys are dictated per peer (cfg-guarded override in Key::from(PeerId))",
                 "AddressStore abstracted to the number of insert calls (is_empty iff 0); its own behaviour is C10",
-                "U256 arithmetic (xor, leading_zeros, bit) modelled by Nat.xor / Nat.log2 / Nat.testBit"]
+                "U256 arithmetic (xor, leading_zeros, bit) modelled by Nat.xor / Nat.log2 / Nat.testBit",
+                "hand-written model Model/Kad/TableWiring.lean tied to kademlia/mod.rs by the `t` box of adapter "
+                "/repo/src/verif/c16.rs + c16_table.rs (real Kademlia::run on a real TransportService, table read at the "
+                "`snapshot` trace point through c14.rs::verif_dump), checks/kadwire.py"]
 ASSUMPTIONS = ["PeerId::random() placeholders pushed by KBucket::entry never have the key of a peer that is looked up",
                "distinct peers have distinct keys (SHA-256 collision freedom); the generator dictates injective keys",
-               "keys are 256-bit (below 2^256)"]
+               "keys are 256-bit (below 2^256)",
+               "coordinator level: ConnectionEstablished is delivered only for a peer without open connection (C08); no query "
+               "is in flight in the `t` histories (pending dial actions are C16's model; `established .. pending` covers the "
+               "PeerContext they create)"]
 KEEP_PREFIX = 1
 BITS = 256
 KS = [0, 1, 19, 20, 21, 60]
@@ -388,6 +405,30 @@ def nontrivial(case, out):
 
 
 def matches_known(k, v):
-    """No open known finding: the duplicate of DESIGN §8-l is repaired by a `fix:` commit."""
+    """The duplicate of DESIGN §8-l is repaired by a `fix:` commit. Open: `add-known-peer-downgrades-open-connection`
+    (coordinator level) - matches ONLY an open-connection peer found not-Connected right after an `add` for that very
+    peer while it has no PeerContext; a downgrade by any other event (dial failure, another peer's events) or a
+    displacement without that add is reported."""
     sig = k.get("signature", {})
-    return bool(sig) and all(v.get(a) == b for a, b in sig.items())
+    return k.get("property") == ID and bool(sig) and all(v.get(a) == b for a, b in sig.items())
+
+
+# ---------------------------------------------------------------- coordinator-level histories (engine: extra_cases)
+# RoutingTable/KBucket alone cannot show what the event handlers of `Kademlia` do with the table (which table call
+# each ConnectionEstablished / ConnectionClosed / DialFailure / AddKnownPeer makes, with which ConnectionType): those
+# histories run in the c16 area (`t` box: the real Kademlia event loop with dictated keys, model
+# Model/Kad/TableWiring.lean over the table model), judged by kadwire.oracle_wire: a peer whose connection is open is
+# `Connected` in the table and keeps its slot, whatever else happens.
+def extra_cases(rng, tier):
+    from . import kadwire
+    yield "C16", list(kadwire.gen_wire_cases(rng, tier))
+
+
+def oracle_extra(xpid, case, out):
+    from . import kadwire
+    return [dict(v, msg="(real Kademlia event loop, c16 area) " + v["msg"]) for v in kadwire.oracle_wire(case, out)]
+
+
+def stats_extra(xpid, case, out, acc):
+    from . import kadwire
+    kadwire.stats_wire(case, out, acc)
